@@ -1,6 +1,7 @@
 package main
 
 import (
+	"fmt"
 	"go/token"
 	"go/types"
 
@@ -277,6 +278,17 @@ func clCleanupOrder(c *Ctx) {
 		undecidedf("no call of AccessBarrier.callb found in the module")
 	}
 	clDestructorUnderTryLock(c, fn, fCallb)
+	// the three close-number counters are compared with each other (queue
+	// order, next-in-line test): they must have one and the same 64-bit type,
+	// otherwise the narrower one wraps first and no session is ever next again
+	fActive := p.Field("skiplist", "AccessBarrier", "activeSeqno")
+	same := types.Identical(fSeq.Type(), fFreeSeq.Type()) && types.Identical(fSeq.Type(), fActive.Type())
+	wide := false
+	if b, ok := fSeq.Type().Underlying().(*types.Basic); ok {
+		wide = b.Kind() == types.Uint64 || b.Kind() == types.Int64
+	}
+	c.Check(same && wide, fn, nil, "close numbers (BarrierSession.seqno, activeSeqno, freeSeqno) share one 64-bit integer type",
+		fmt.Sprintf("seqno %s, activeSeqno %s, freeSeqno %s: the narrower counter wraps first; from then on no queued session equals freeSeqno+1 and destruction stops for good", fSeq.Type(), fActive.Type(), fFreeSeq.Type()))
 	if callb == nil {
 		return // reported above
 	}
